@@ -330,6 +330,7 @@ func ruleStopShape(c *Ctx, r *Rule) {
 }
 
 func ruleReadinessClauses(c *Ctx, r *Rule) {
+	defer c.withDeepFacts()() // a readiness condition extracted into a boolean helper is read like the inline one
 	var st *ssa.Store
 	for _, a := range c.fieldAccesses(pipelinePkg, "Batch", "status") {
 		if a.write && recvNamed(a.fn) != nil && recvNamed(a.fn).Obj().Name() == "Batch" {
